@@ -709,6 +709,8 @@ CORPUS = [
     ["new h0 4 0 0", "new h1 6 1 1", "script h0 send 0 send:1:0:6 try:1:7 try2:2:1:6", "script h0 send 1 close",
      "sout h0 e11", "op h0 send:1:0:10", "op h0 send:1:0:11", "run", "run", "run",
      "alloc h1 200000", "rin h1 d5:0:1 d6:0:2 d7:0:3", "script h1 recv 1 send:0:0:6 close", "op h1 rstart", "run", "run"],
+    # RECVMMSG handle given buffers below 64 KiB: plain recvmsg path, must terminate and deliver
+    ["new h0 4 0 1", "alloc h0 1500 65535", "rin h0 d50:0:1 d1500:0:2 d1501:1:3", "op h0 rstart", "run", "run"],
     # uv_udp_recv_stop inside a UV_UDP_MMSG_CHUNK callback: the buffer must still come back (MMSG_FREE)
     ["new h0 4 0 1", "alloc h0 131072", "rin h0 d10:0:1 d20:0:2", "script h0 recv 0 rstop", "op h0 rstart", "run", "run"],
     ["new h0 6 0 1", "alloc h0 1400000", "rin h0 " + " ".join(f"d{10 + j}:0:2" for j in range(30)),
